@@ -86,7 +86,7 @@ func c17Entries(list string) []c17Entry {
 				g.AttesterList = append(g.AttesterList, cctptypes.Attester{Attester: s})
 			}}
 		}
-		return []c17Entry{mk(Keys[0].Hex), mk(Keys[0].Hex), mk(Keys[1].Hex), mk(Keys[0].Spell(1))}
+		return []c17Entry{mk(Keys[0].Hex), mk(Keys[0].Hex), mk(Keys[1].Hex), mk(Keys[0].Spell(1)), mk(Keys[1].Spell(2))} // round 6: an upper-case spelling (a different key string) must round-trip verbatim
 	case "limits":
 		mk := func(d string, a int64) c17Entry {
 			return c17Entry{d, func(g *cctptypes.GenesisState) {
@@ -100,8 +100,8 @@ func c17Entries(list string) []c17Entry {
 				g.TokenPairList = append(g.TokenPairList, cctptypes.TokenPair{RemoteDomain: d, RemoteToken: t, LocalToken: l})
 			}}
 		}
-		t20 := bytes.Repeat([]byte{0xA5}, 20) // a 20-byte remote token and the same bytes left-padded to 32: two different keys
-		return []c17Entry{mk(0, tA, "uusdc"), mk(0, tA, "uatom"), mk(0, tC, "uusdc"), mk(1, tA, "uusdc"), mk(0, t20, "uusdc"), mk(0, pad32(t20), "uatom")}
+		t20 := bytes.Repeat([]byte{0xA5}, 20)                                                                                                                                  // a 20-byte remote token and the same bytes left-padded to 32: two different keys
+		return []c17Entry{mk(0, tA, "uusdc"), mk(0, tA, "uatom"), mk(0, tC, "uusdc"), mk(1, tA, "uusdc"), mk(0, t20, "uusdc"), mk(0, pad32(t20), "uatom"), mk(1, tC, "uUSDC")} // round 6: a mixed-case local token is stored and exported verbatim
 	case "used":
 		mk := func(d uint32, n uint64) c17Entry {
 			return c17Entry{nonceKey(d, n), func(g *cctptypes.GenesisState) {
